@@ -48,3 +48,22 @@ Definition d_spec_update (a : sexp) : sexp :=
   let rs := map qspec_of_sexp (as_list a) in
   L [sZs ([0; 0] ++ be_enc 2 (len rs) ++ List.concat (map qwire rs));
      L (map sexp_of_ev ([EBegin] ++ List.concat (map qevents rs)))].
+
+(** "spec_viewer": the viewer sessions the C16/C17 theorems quantify over ([vmsg] with [vwf]) -> their bytes
+    ([vwire]).  The harness feeds them to the REAL proxy in random chunks. *)
+From VD Require Import Model.Recorder Model.Replay Proofs.SessionP Proofs.SessionAllP.
+
+Definition vmsg_of_sexp (s : sexp) : vmsg :=
+  match as_list s with
+  | [I 0; body] => VSetPF (as_Zs body)
+  | [I 1; I pad; encs] => VSetEnc pad (map as_Zs (as_list encs))
+  | [I 2; body] => VFbur (as_Zs body)
+  | [I 3; I d; I k] => VKey d k
+  | [I 4; I m; I x; I y] => VPtr m x y
+  | [I 5; pad; text] => VCut (as_Zs pad) (as_Zs text)
+  | [I 6; I d; I k; kc] => VQemu d k (as_Zs kc)
+  | _ => VFbur []
+  end.
+
+Definition d_spec_viewer (a : sexp) : sexp :=
+  L [sZs (List.concat (map vwire (map vmsg_of_sexp (as_list a))))].
